@@ -869,6 +869,21 @@ func deepFamilies(g *gen, alpha []Exchange) {
 			}
 		}
 	}
+	// P over the wide alphabet
+	for _, a := range walpha {
+		if a.closes() {
+			continue
+		}
+		for _, b := range walpha {
+			for _, cut := range []string{"one_byte", "in_request_line", "after_request_line", "in_headers", "before_last_lf", "after_blank_line", "in_body"} {
+				if (cut == "after_blank_line" || cut == "in_body") && (b.Req.Framing == "none" || b.Req.Size < 2) {
+					continue
+				}
+				a.Req.Seg, b.Req.Seg = "one", "one"
+				g.add(Scenario{Family: "P_partial_next_request", Conns: [][]Exchange{{a, b}}, Mode: "partial_next", Cut: cut})
+			}
+		}
+	}
 	// S: origin responses cut into several writes at every header/body boundary (one write per head line, then
 	// the body), at the head/body boundary, and byte by byte for short responses
 	for _, m := range []string{"GET", "HEAD", "POST"} {
@@ -1802,7 +1817,7 @@ func main() {
 	}
 	_, total, fams := scenarios(tier, nil) // the parent only counts; workers materialise their own shares
 	rep := lib.NewReport("C01", "model_checking")
-	agg := h1harness.RunAll(16, total, lib.Root+"/.build/c01/work", func(idx int, stderr string) (string, string, interface{}) {
+	agg := h1harness.RunAll(16, total, fmt.Sprintf("%s/.build/c01/work-%d", lib.Root, os.Getpid()), func(idx int, stderr string) (string, string, interface{}) {
 		one, _, _ := scenarios(tier, func(id int) bool { return id == idx })
 		s := one[idx]
 		return classOf(s, s.Conns[0][0]) + ":crash", fmt.Sprintf("scenario %s terminates the proxy process: %s", describe(s), tail(stderr, 1500)), s
